@@ -4,14 +4,15 @@ Require Import RP.Model.Base RP.Model.Packet RP.Model.Events RP.Spec.EventLayout
 (* For every one of the 16 decoders and every packet made of bytes (any length, either flag):
    the decoder returns a value or an error value; a value is returned only for a non-error packet
    that carries the kind's code and has exactly the length the published layout of that value
-   requires, the value is in the kind's domain and survives re-encoding; and whatever rejection
+   requires and whose variant tag / boolean byte is a known one (tag_unknown = false), the value is in
+   the kind's domain and survives re-encoding; and whatever rejection
    reason is reported is one that truly applies (reason_applies is defined in Spec/EventLayout.v,
    independently of the decoders). *)
 Theorem C05_exact : forall (k : kind) (p : packet), wf_packet p = true ->
   decode k p <> Panic /\ decode k p <> Hang /\
   (forall e, decode k p = Val e ->
      wf_event e = true /\ kind_of e = k /\ p_err p = false /\ code_of p = Some (code k) /\
-     length (p_data p) = layout_len e /\ decode k (encode e) = Val e) /\
+     length (p_data p) = layout_len e /\ tag_unknown k p = false /\ decode k (encode e) = Val e) /\
   (forall r, decode k p = Fail r -> reason_applies k r p = true).
 Proof. exact decode_exact. Qed.
 
